@@ -1,5 +1,6 @@
 import TD.C08.LemmasRound
 import TD.C08.LemmasEbs
+import TD.C08.LemmasDsb
 
 /-!
 # C08 — LIS tables and data format specifications survive encode then decode
@@ -502,5 +503,99 @@ theorem ebs_even_length (E : List EB) (hE : EBSOk E) :
     L a12 (by simp [bl]), L a13 (by simp [bl]), L a14 (by simp [bl]), L a15 (by simp [bl]), L a16 (by simp [bl]),
     (encEBRaw_spec term htl).2.1]
   omega
+
+/-! ## Datum specification blocks and the whole format specification -/
+
+/-- **Derived bursts and sub-channels**, stated independently of the code's branches: a dipmeter channel (codes 130 /
+234) has 5 / 15 sub-channels and one burst; any other channel of `b` bursts of `sa` samples of a `w`-byte code
+(`size = b·w·sa`) has one sub-channel and `b` bursts. -/
+theorem bursts_spec (rc : Nat) (size : Int) (sa : Nat) :
+    (rc = 130 → burstsSub rc size sa = .ok (1, 5)) ∧ (rc = 234 → burstsSub rc size sa = .ok (1, 15)) ∧
+    (∀ w b : Nat, rc ≠ 130 → rc ≠ 234 → rcLisSize rc = some w → 0 < w → 0 < sa → 0 < b → size = ((b * (w * sa) : Nat) : Int) →
+      burstsSub rc size sa = .ok (b, 1)) := by
+  refine ⟨by intro h; simp [burstsSub, h], by intro h; simp [burstsSub, h], ?_⟩
+  intro w b h130 h234 hw hwp hsa hb hsize
+  have hpos : 0 < w * sa := Nat.mul_pos hwp hsa
+  have hsz : 0 < size := by rw [hsize]; exact_mod_cast Nat.mul_pos hb hpos
+  have htn : size.toNat = b * (w * sa) := by rw [hsize]; exact Int.toNat_natCast _
+  have hne : ¬ w * sa = 0 := by omega
+  simp only [burstsSub, h130, h234, if_false, hsz, if_true, hw, hne, htn, Nat.mul_mod_left, ne_eq, not_true_eq_false,
+    Nat.mul_div_cancel _ hpos]
+
+/-- **Channel block round trip.** A channel specification whose fields fit the 40-byte block is packed by
+`ChannelSpec.dsbBytes` and read back by `DatumSpecBlockRead` with the same mnemonic, service id / order, units, API
+digits, file number, size, samples and representation code, and the bursts / sub-channels derived by `bursts_spec`. -/
+theorem dsb_roundtrip (c : ChanSpec) (h : ChanOk c) (b sc : Nat)
+    (hb : burstsSub c.rc.toNat c.chLen c.sa.toNat = .ok (b, sc)) :
+    ∃ bs, dsbBytes c = .ok bs ∧ bs.length = 40 ∧ ∀ rest, readDsb (bs ++ rest) = .ok (dsbOf c b sc, rest) := by
+  obtain ⟨bs, h1, h2, h3⟩ := dsb_enc_read c h
+  refine ⟨bs, h1, h2, ?_⟩
+  intro rest; rw [h3 rest, hb]
+
+def dsbOfChan (c : ChanSpec) : Dsb :=
+  match burstsSub c.rc.toNat c.chLen c.sa.toNat with
+  | .ok (b, sc) => dsbOf c b sc
+  | .error _ => dsbOf c 0 0
+
+/-- **Format specification round trip.** A legal entry block set whose DSB-type block (2) holds 0, followed by channel
+blocks with consistent (size, samples, code): `LrDFSRRead` gives back the entry block set (`ebs_roundtrip`) and the
+channel definitions in order; channels of size 0 ("null") are dropped by design. -/
+theorem dfsr_roundtrip (E : List EB) (chans : List ChanSpec) (hE : EBSOk E)
+    (h2 : ∃ e2, E[2]? = some e2 ∧ keyEq (e2.val.map rtVal) (some (.int 0)) = true)
+    (hch : ∀ c ∈ chans, ChanOk c ∧ ∃ b sc, burstsSub c.rc.toNat c.chLen c.sa.toNat = .ok (b, sc)) :
+    ∃ bs, dfsrLrBytes E chans = .ok bs ∧
+      dfsrRead bs = .ok (evenOf ((E.map rtEB).set 10 ⟨10, 0, 66, none⟩),
+                         (chans.map dsbOfChan).filter (fun d => d.size ≠ 0)) := by
+  -- channel bytes
+  have hcb : ∀ c ∈ chans, ∃ bs, dsbBytes c = .ok bs ∧ bs.length = 40 ∧ ∀ rest, readDsb (bs ++ rest) = .ok (dsbOfChan c, rest) := by
+    intro c hc
+    obtain ⟨hok, b, sc, hb⟩ := hch c hc
+    obtain ⟨bs, h1, h2', h3⟩ := dsb_roundtrip c hok b sc hb
+    exact ⟨bs, h1, h2', by intro rest; rw [h3 rest]; simp [dsbOfChan, hb]⟩
+  let raw : ChanSpec → Bytes := fun c => match dsbBytes c with | .ok b => b | .error _ => []
+  have hraw : ∀ c ∈ chans, dsbBytes c = .ok (raw c) ∧ (raw c).length = 40 ∧ ∀ rest, readDsb (raw c ++ rest) = .ok (dsbOfChan c, rest) := by
+    intro c hc
+    obtain ⟨bs, h1, h2', h3⟩ := hcb c hc
+    have : raw c = bs := by simp [raw, h1]
+    rw [this]; exact ⟨h1, h2', h3⟩
+  let cbytes : Bytes := chans.flatMap raw
+  have hconc : concatE (chans.map dsbBytes) = .ok cbytes := by
+    have := concatE_ok_dsb (chans.map (fun c => (c, raw c))) (by
+      intro p hp
+      obtain ⟨c, hc, rfl⟩ := List.mem_map.1 hp
+      exact (hraw c hc).1)
+    simpa [List.map_map, Function.comp_def, List.flatMap_map, cbytes] using this
+  have hE0 : ebsDefault = .ok (evenOf ebsInit) := setEven_eq _ (by decide)
+  obtain ⟨eb, heb, hread⟩ := ebs_roundtrip E (evenOf ebsInit) hE (by decide) cbytes
+  have h10 : (evenOf ebsInit).getD 10 ⟨10, 0, 66, none⟩ = ⟨10, 0, 66, none⟩ := by decide
+  rw [h10] at hread
+  refine ⟨[64, 0] ++ eb ++ cbytes, by simp [dfsrLrBytes, heb, hconc], ?_⟩
+  have hu2 : unpackN 2 ([64, 0] ++ eb ++ cbytes) = .ok ([64, 0], eb ++ cbytes) := by
+    rw [List.append_assoc]; exact unpackN_append [64, 0] _ (by simp)
+  -- block 2 of what was read
+  have hblock2 : keyEq ((evenOf ((E.map rtEB).set 10 ⟨10, 0, 66, none⟩)).getD 2 ⟨2, 0, 66, none⟩).val (some (.int 0)) = true := by
+    obtain ⟨e2, he2, hk⟩ := h2
+    obtain ⟨a0, a1, a2, a3, a4, a5, a6, a7, a8, a9, a10, a11, a12, a13, a14, a15, a16, rfl, _⟩ := ebs_explicit E hE
+    simp only [List.getElem?_cons_succ, List.getElem?_cons_zero, Option.some.injEq] at he2
+    subst he2
+    unfold evenOf
+    split <;> simpa [rtEB] using hk
+  -- the channel loop
+  let items : List (Bytes × Dsb) := chans.map (fun c => (raw c, dsbOfChan c))
+  have hitems : ∀ p ∈ items, p.1.length = 40 ∧ ∀ rest, readDsb (p.1 ++ rest) = .ok (p.2, rest) := by
+    intro p hp
+    obtain ⟨c, hc, rfl⟩ := List.mem_map.1 hp
+    exact ⟨(hraw c hc).2.1, (hraw c hc).2.2⟩
+  have hfm : items.flatMap (·.1) = cbytes := by simp [items, cbytes, List.flatMap_map]
+  have hfuel : items.length ≤ cbytes.length := by
+    rw [← hfm]
+    exact length_le_flatMap_dsb items (fun p hp => by rw [(hitems p hp).1]; omega)
+  have hloop := dsbLoop_list items hitems cbytes.length [] hfuel
+  rw [hfm] at hloop
+  have hsnd : items.map (·.2) = chans.map dsbOfChan := by simp [items, List.map_map, Function.comp_def]
+  unfold dfsrRead
+  rw [hu2]
+  simp only [List.getD_cons_zero, ne_eq, not_true_eq_false, if_false, hE0, hread, hblock2, Bool.not_true,
+    Bool.false_eq_true, hloop, List.nil_append, hsnd]
 
 end TD.C08
